@@ -38,12 +38,18 @@ func oracleC06(c *CaseHist) *Failure {
 		case "encode", "reencode":
 			var e *enc
 			if op.Kind == "encode" {
-				// stand-alone encoding of an identical copy into an empty buffer
-				e0, _, err0, pan0 := LibEncode(op.V.Clone())
-				if pan0 != nil {
-					return nil // C17's business; nothing to compare
+				// expected bytes: what this message produces into an empty buffer. Where the pinned schema defines
+				// the outcome the interpreter supplies it (so that the library's first call on this message is the
+				// one into the shared buffer); otherwise a stand-alone library encoding of an identical copy.
+				if r := Render(op.V, nil); !r.MustError && !r.MayError {
+					e = &enc{obj: ToStruct(op.V), e0: r.Bytes, err: false, typ: op.V.Type}
+				} else {
+					e0, _, err0, pan0 := LibEncode(op.V.Clone())
+					if pan0 != nil {
+						return nil // C17's business; nothing to compare
+					}
+					e = &enc{obj: ToStruct(op.V), e0: append([]byte{}, e0...), err: err0 != nil, typ: op.V.Type}
 				}
-				e = &enc{obj: ToStruct(op.V), e0: append([]byte{}, e0...), err: err0 != nil, typ: op.V.Type}
 				encs[i] = e
 			} else {
 				e = encs[op.Ref]
